@@ -118,6 +118,45 @@ def facts_dir(config, sha=None):
     return d
 
 
+def roots_facts(sha=None):
+    """Monomorphic instance closure of the harness crate engine/roots (path-depends on /repo)."""
+    sha = sha or repo_hash()
+    os.makedirs(WORK, exist_ok=True)
+    d = os.path.join(WORK, "facts", "roots", sha)
+    out = os.path.join(d, "roots.json")
+    if os.path.exists(out):
+        return out
+    with open(os.path.join(WORK, "facts.lock"), "w") as lk:
+        fcntl.flock(lk, fcntl.LOCK_EX)
+        if os.path.exists(out):
+            return out
+        ensure_driver()
+        rdir = os.path.join(VERIF, "engine", "roots")
+        lock = os.path.join(REPO, "Cargo.lock")
+        if os.path.exists(lock):
+            shutil.copy(lock, os.path.join(rdir, "Cargo.lock"))
+        tmp_out = tempfile.mkdtemp(prefix="egfacts-out-")
+        tgt = os.path.join(WORK, "target", "roots")
+        os.makedirs(tgt, exist_ok=True)
+        fp = os.path.join(tgt, "debug", ".fingerprint")
+        if os.path.isdir(fp):
+            for e in os.listdir(fp):
+                if e.startswith("embedded-graphics") or e.startswith("roots"):
+                    shutil.rmtree(os.path.join(fp, e), ignore_errors=True)
+        try:
+            r = subprocess.run(["cargo", "+nightly", "check", "--offline", "--lib"], cwd=rdir, env=dict(base_env(tmp_out), CARGO_TARGET_DIR=tgt),
+                               stdout=subprocess.PIPE, stderr=subprocess.STDOUT, text=True)
+            if r.returncode != 0 or not os.path.exists(os.path.join(tmp_out, "roots.json")):
+                sys.stderr.write(r.stdout[-6000:])
+                raise SystemExit("mono extraction (roots harness) failed")
+            os.makedirs(d, exist_ok=True)
+            shutil.move(os.path.join(tmp_out, "roots.json"), out)
+            _prune(os.path.dirname(d), 3)
+        finally:
+            shutil.rmtree(tmp_out, ignore_errors=True)
+    return out
+
+
 _CRATE_RE = re.compile(r"(?<![A-Za-z0-9_])crate::")
 
 
